@@ -43,14 +43,14 @@ theorem allOkKids_rewireAll (bumps : List (Nat × Nat)) (ks : List Node) :
 
 
 theorem allOkKids_runKids_pre (cfg : Cfg) (fails : Nat → Bool) (mode : Mode) (pins : List Val)
-    (links : List (Option Ref)) :
+    (links : List (Option Ref)) (mask : List Bool) :
     ∀ (rest : List Node) (st : KS),
-      allOkKids (runKids cfg fails mode pins links st rest).pre = true → allOkKids st.pre = true
+      allOkKids (runKids cfg fails mode pins links mask st rest).pre = true → allOkKids st.pre = true
   | [], st, h => by simpa [runKids] using h
   | n :: rest, st, h => by
     rw [runKids] at h
     split at h <;>
-    · have := allOkKids_runKids_pre cfg fails mode pins links rest _ h
+    · have := allOkKids_runKids_pre cfg fails mode pins links mask rest _ h
       simp only [KS.push_pre, allOkKids_append, Bool.and_eq_true] at this
       exact this.1
 
@@ -58,9 +58,10 @@ theorem allOkKids_runKids_pre (cfg : Cfg) (fails : Nat → Bool) (mode : Mode) (
 
 @[simp] theorem Exe.byValue_none : Exe.byValue .none = false := rfl
 
-theorem run_gen_of_not_byValue (cfg : Cfg) (fails : Nat → Bool) (mode : Mode) (ins : List Val) (n : Node)
+theorem run_gen_of_not_byValue (cfg : Cfg) (fails : Nat → Bool) (mode : Mode) (ins : List Val)
+    (mask : List Bool) (n : Node)
     (h : (place mode n.own.exe).byValue = false ∨ cfg.keepIO = true) :
-    (run cfg fails mode ins n).own.gen = n.own.gen := by
+    (run cfg fails mode ins mask n).own.gen = n.own.gen := by
   cases n with
   | fn o fid =>
     simp only [run, Node.own, Own.leafRun]
@@ -81,45 +82,46 @@ theorem run_gen_of_not_byValue (cfg : Cfg) (fails : Nat → Bool) (mode : Mode) 
 mutual
 theorem run_eq_ignore (cfg : Cfg) (fails : Nat → Bool) (hIO : cfg.keepIO = true) (hKE : cfg.keepKidExe = true)
     (hDD : cfg.dropDetached = true) :
-    ∀ (n : Node) (mode : Mode) (ins : List Val),
-      allOk (run cfg fails .ignore ins n) = true → run cfg fails mode ins n = run cfg fails .ignore ins n
-  | .fn o fid, mode, ins, _ => by simp [run]
-  | .comp o k links kids, mode, ins, h => by
+    ∀ (n : Node) (mode : Mode) (ins : List Val) (mask : List Bool),
+      allOk (run cfg fails .ignore ins mask n) = true →
+      run cfg fails mode ins mask n = run cfg fails .ignore ins mask n
+  | .fn o fid, mode, ins, mask, _ => by simp [run]
+  | .comp o k links kids, mode, ins, mask, h => by
     simp only [run, place_ignore, Exe.byValue_none, Bool.false_eq_true, if_false] at h ⊢
     simp only [allOk, Bool.and_eq_true, Bool.not_eq_true'] at h
     obtain ⟨herr, hk⟩ := h
     rw [allOkKids_rewireAll] at hk
     by_cases hb : (place mode o.exe).byValue = true
     · simp only [hb, if_true]
-      rw [runKids_eq_ignore cfg fails hIO hKE hDD kids (.honour true) ins links KS.init hk]
+      rw [runKids_eq_ignore cfg fails hIO hKE hDD kids (.honour true) ins links mask KS.init hk]
       simp [mergeOrFail, herr, mergeBack, hIO, hKE, hDD]
     · simp only [hb]
-      rw [runKids_eq_ignore cfg fails hIO hKE hDD kids mode ins links KS.init hk]
+      rw [runKids_eq_ignore cfg fails hIO hKE hDD kids mode ins links mask KS.init hk]
       simp
 
 theorem runKids_eq_ignore (cfg : Cfg) (fails : Nat → Bool) (hIO : cfg.keepIO = true)
     (hKE : cfg.keepKidExe = true) (hDD : cfg.dropDetached = true) :
-    ∀ (kids : List Node) (mode : Mode) (pins : List Val) (links : List (Option Ref)) (st : KS),
-      allOkKids (runKids cfg fails .ignore pins links st kids).pre = true →
-      runKids cfg fails mode pins links st kids = runKids cfg fails .ignore pins links st kids
-  | [], _, _, _, _, _ => by simp [runKids]
-  | n :: rest, mode, pins, links, st, h => by
+    ∀ (kids : List Node) (mode : Mode) (pins : List Val) (links : List (Option Ref)) (mask : List Bool) (st : KS),
+      allOkKids (runKids cfg fails .ignore pins links mask st kids).pre = true →
+      runKids cfg fails mode pins links mask st kids = runKids cfg fails .ignore pins links mask st kids
+  | [], _, _, _, _, _, _ => by simp [runKids]
+  | n :: rest, mode, pins, links, mask, st, h => by
     rw [runKids] at h
     rw [runKids, runKids]
     split
     · rename_i i hp
       simp only [hp] at h
-      exact runKids_eq_ignore cfg fails hIO hKE hDD rest mode pins links _ h
+      exact runKids_eq_ignore cfg fails hIO hKE hDD rest mode pins links mask _ h
     · rename_i i hp
       simp only [hp] at h
-      exact runKids_eq_ignore cfg fails hIO hKE hDD rest mode pins links _ h
+      exact runKids_eq_ignore cfg fails hIO hKE hDD rest mode pins links mask _ h
     · rename_i i hp
       simp only [hp] at h
-      have hpre := allOkKids_runKids_pre cfg fails .ignore pins links rest _ h
+      have hpre := allOkKids_runKids_pre cfg fails .ignore pins links mask rest _ h
       simp only [KS.push_pre, allOkKids_append, Bool.and_eq_true, allOkKids] at hpre
-      have hn := run_eq_ignore cfg fails hIO hKE hDD n mode i hpre.2.1
+      have hn := run_eq_ignore cfg fails hIO hKE hDD n mode i _ hpre.2.1
       simp only [hn]
-      exact runKids_eq_ignore cfg fails hIO hKE hDD rest mode pins links _ h
+      exact runKids_eq_ignore cfg fails hIO hKE hDD rest mode pins links mask _ h
 end
 
 
@@ -130,10 +132,10 @@ def noMergeKids (mode : Mode) (ks : List Node) : Bool := mode == .ignore || noBy
 
 mutual
 theorem run_noMerge (cfg cfg' : Cfg) (fails : Nat → Bool) :
-    ∀ (n : Node) (mode : Mode) (ins : List Val), noMerge mode n = true →
-      run cfg fails mode ins n = run cfg' fails .ignore ins n
-  | .fn o fid, mode, ins, _ => by simp [run]
-  | .comp o k links kids, mode, ins, h => by
+    ∀ (n : Node) (mode : Mode) (ins : List Val) (mask : List Bool), noMerge mode n = true →
+      run cfg fails mode ins mask n = run cfg' fails .ignore ins mask n
+  | .fn o fid, mode, ins, mask, _ => by simp [run]
+  | .comp o k links kids, mode, ins, mask, h => by
     have hk : noMergeKids mode kids = true := by
       simp only [noMerge, noMergeKids, noByValueComp, Bool.or_eq_true, Bool.and_eq_true] at h ⊢
       rcases h with h | h
@@ -147,15 +149,15 @@ theorem run_noMerge (cfg cfg' : Cfg) (fails : Nat → Bool) :
         | false => rfl
         | true => have := place_byValue hc; simp [this] at h
     simp only [run, hb, place_ignore, Exe.byValue_none, Bool.false_eq_true, if_false]
-    rw [runKids_noMerge cfg cfg' fails kids mode ins links KS.init hk]
+    rw [runKids_noMerge cfg cfg' fails kids mode ins links mask KS.init hk]
   termination_by n => sizeOf n
 
 theorem runKids_noMerge (cfg cfg' : Cfg) (fails : Nat → Bool) :
-    ∀ (kids : List Node) (mode : Mode) (pins : List Val) (links : List (Option Ref)) (st : KS),
+    ∀ (kids : List Node) (mode : Mode) (pins : List Val) (links : List (Option Ref)) (mask : List Bool) (st : KS),
       noMergeKids mode kids = true →
-      runKids cfg fails mode pins links st kids = runKids cfg' fails .ignore pins links st kids
-  | [], _, _, _, _, _ => by simp [runKids]
-  | n :: rest, mode, pins, links, st, h => by
+      runKids cfg fails mode pins links mask st kids = runKids cfg' fails .ignore pins links mask st kids
+  | [], _, _, _, _, _, _ => by simp [runKids]
+  | n :: rest, mode, pins, links, mask, st, h => by
     have hn : noMerge mode n = true := by
       simp only [noMerge, noMergeKids, noByValueCompKids, Bool.or_eq_true, Bool.and_eq_true] at h ⊢
       rcases h with h | h
@@ -168,11 +170,11 @@ theorem runKids_noMerge (cfg cfg' : Cfg) (fails : Nat → Bool) :
       · exact Or.inr h.2
     rw [runKids, runKids]
     split
-    · exact runKids_noMerge cfg cfg' fails rest mode pins links _ hr
-    · exact runKids_noMerge cfg cfg' fails rest mode pins links _ hr
+    · exact runKids_noMerge cfg cfg' fails rest mode pins links mask _ hr
+    · exact runKids_noMerge cfg cfg' fails rest mode pins links mask _ hr
     · rename_i i hp
-      simp only [run_noMerge cfg cfg' fails n mode i hn]
-      exact runKids_noMerge cfg cfg' fails rest mode pins links _ hr
+      simp only [run_noMerge cfg cfg' fails n mode i _ hn]
+      exact runKids_noMerge cfg cfg' fails rest mode pins links mask _ hr
   termination_by kids => sizeOf kids
 end
 
@@ -184,30 +186,30 @@ theorem shapeOf_setOwn (n : Node) (o : Own) (h : o.shape = n.own.shape) :
   cases n <;> simp [Node.setOwn, shapeOf, Node.own] at * <;> exact h
 
 mutual
-theorem shapeOf_setIns : ∀ (n : Node) (i : List Val), shapeOf (setIns i n) = shapeOf n
-  | .fn o fid, i => rfl
-  | .comp o k l ks, i => by
-    simp only [setIns, shapeOf, shapeOfKids_pushKids ks i l 0]
+theorem shapeOf_setIns : ∀ (n : Node) (i : List Val) (m : List Bool), shapeOf (setIns i m n) = shapeOf n
+  | .fn o fid, i, m => rfl
+  | .comp o k l ks, i, m => by
+    simp only [setIns, shapeOf, shapeOfKids_pushKids ks i l m 0]
     rfl
-theorem shapeOfKids_pushKids : ∀ (ks : List Node) (pins : List Val) (l : List (Option Ref)) (p : Nat),
-    shapeOfKids (pushKids pins l p ks) = shapeOfKids ks
-  | [], _, _, _ => rfl
-  | n :: ns, pins, l, p => by
+theorem shapeOfKids_pushKids : ∀ (ks : List Node) (pins : List Val) (l : List (Option Ref)) (m : List Bool)
+    (p : Nat), shapeOfKids (pushKids pins l m p ks) = shapeOfKids ks
+  | [], _, _, _, _ => rfl
+  | n :: ns, pins, l, m, p => by
     simp only [pushKids, shapeOfKids, shapeOf_setIns n, shapeOfKids_pushKids ns]
 end
 attribute [simp] shapeOf_setIns shapeOfKids_pushKids
 
-@[simp] theorem setIns_gen (n : Node) (i : List Val) : (setIns i n).own.gen = n.own.gen := by
+@[simp] theorem setIns_gen (n : Node) (i : List Val) (m : List Bool) : (setIns i m n).own.gen = n.own.gen := by
   cases n <;> rfl
 
 mutual
-theorem allOk_setIns : ∀ (n : Node) (i : List Val), allOk (setIns i n) = allOk n
-  | .fn o fid, i => rfl
-  | .comp o k l ks, i => by simp only [setIns, allOk, allOkKids_pushKids ks i l 0]
-theorem allOkKids_pushKids : ∀ (ks : List Node) (pins : List Val) (l : List (Option Ref)) (p : Nat),
-    allOkKids (pushKids pins l p ks) = allOkKids ks
-  | [], _, _, _ => rfl
-  | n :: ns, pins, l, p => by
+theorem allOk_setIns : ∀ (n : Node) (i : List Val) (m : List Bool), allOk (setIns i m n) = allOk n
+  | .fn o fid, i, m => rfl
+  | .comp o k l ks, i, m => by simp only [setIns, allOk, allOkKids_pushKids ks i l m 0]
+theorem allOkKids_pushKids : ∀ (ks : List Node) (pins : List Val) (l : List (Option Ref)) (m : List Bool)
+    (p : Nat), allOkKids (pushKids pins l m p ks) = allOkKids ks
+  | [], _, _, _, _ => rfl
+  | n :: ns, pins, l, m, p => by
     simp only [pushKids, allOkKids, allOk_setIns n, allOkKids_pushKids ns]
 end
 attribute [simp] allOk_setIns allOkKids_pushKids
@@ -226,15 +228,16 @@ theorem KS.push_bumps_same (st : KS) (old n : Node) (ok err : Bool) (h : n.own.g
 mutual
 theorem shapeOf_run (cfg : Cfg) (fails : Nat → Bool) (hIO : cfg.keepIO = true) (hKE : cfg.keepKidExe = true)
     (hDD : cfg.dropDetached = true) :
-    ∀ (n : Node) (mode : Mode) (ins : List Val), shapeOf (run cfg fails mode ins n) = shapeOf n
-  | .fn o fid, mode, ins => by
+    ∀ (n : Node) (mode : Mode) (ins : List Val) (mask : List Bool),
+      shapeOf (run cfg fails mode ins mask n) = shapeOf n
+  | .fn o fid, mode, ins, mask => by
     simp only [run, shapeOf, Own.leafRun]
     split <;> rfl
-  | .comp o k links kids, mode, ins => by
-    have hk : ∀ m, shapeOfKids (runKids cfg fails m ins links KS.init kids).pre = shapeOfKids kids ∧
-        (runKids cfg fails m ins links KS.init kids).bumps = [] := by
+  | .comp o k links kids, mode, ins, mask => by
+    have hk : ∀ m, shapeOfKids (runKids cfg fails m ins links mask KS.init kids).pre = shapeOfKids kids ∧
+        (runKids cfg fails m ins links mask KS.init kids).bumps = [] := by
       intro m
-      have := shapeOfKids_runKids cfg fails hIO hKE hDD kids m ins links KS.init
+      have := shapeOfKids_runKids cfg fails hIO hKE hDD kids m ins links mask KS.init
       simpa [KS.init, shapeOfKids] using this
     simp only [run]
     by_cases hb : (place mode o.exe).byValue = true
@@ -251,28 +254,29 @@ theorem shapeOf_run (cfg : Cfg) (fails : Nat → Bool) (hIO : cfg.keepIO = true)
 
 theorem shapeOfKids_runKids (cfg : Cfg) (fails : Nat → Bool) (hIO : cfg.keepIO = true)
     (hKE : cfg.keepKidExe = true) (hDD : cfg.dropDetached = true) :
-    ∀ (kids : List Node) (mode : Mode) (pins : List Val) (links : List (Option Ref)) (st : KS),
-      shapeOfKids (runKids cfg fails mode pins links st kids).pre = shapeOfKids st.pre ++ shapeOfKids kids ∧
-      (runKids cfg fails mode pins links st kids).bumps = st.bumps
-  | [], _, _, _, st => by simp [runKids, shapeOfKids]
-  | n :: rest, mode, pins, links, st => by
+    ∀ (kids : List Node) (mode : Mode) (pins : List Val) (links : List (Option Ref)) (mask : List Bool) (st : KS),
+      shapeOfKids (runKids cfg fails mode pins links mask st kids).pre = shapeOfKids st.pre ++ shapeOfKids kids ∧
+      (runKids cfg fails mode pins links mask st kids).bumps = st.bumps
+  | [], _, _, _, _, st => by simp [runKids, shapeOfKids]
+  | n :: rest, mode, pins, links, mask, st => by
     rw [runKids]
     split
     · rename_i i hp
-      obtain ⟨h1, h2⟩ := shapeOfKids_runKids cfg fails hIO hKE hDD rest mode pins links
-        (st.push n (setIns i n) false false)
+      obtain ⟨h1, h2⟩ := shapeOfKids_runKids cfg fails hIO hKE hDD rest mode pins links mask
+        (st.push n (setIns i (kidMask links mask st.pre.length n.own false) n) false false)
       rw [h1, h2, KS.push_bumps_same _ _ _ _ _ (by simp)]
       simp [shapeOfKids_append, shapeOfKids]
     · rename_i i hp
-      obtain ⟨h1, h2⟩ := shapeOfKids_runKids cfg fails hIO hKE hDD rest mode pins links
-        (st.push n (setIns i n) false true)
+      obtain ⟨h1, h2⟩ := shapeOfKids_runKids cfg fails hIO hKE hDD rest mode pins links mask
+        (st.push n (setIns i (kidMask links mask st.pre.length n.own true) n) false true)
       rw [h1, h2, KS.push_bumps_same _ _ _ _ _ (by simp)]
       simp [shapeOfKids_append, shapeOfKids]
     · rename_i i hp
-      obtain ⟨h1, h2⟩ := shapeOfKids_runKids cfg fails hIO hKE hDD rest mode pins links
-        (st.push n (run cfg fails mode i n) (!(run cfg fails mode i n).own.failed)
-          (run cfg fails mode i n).own.failed)
-      rw [h1, h2, KS.push_bumps_same _ _ _ _ _ (run_gen_of_not_byValue cfg fails mode i n (Or.inr hIO))]
+      obtain ⟨h1, h2⟩ := shapeOfKids_runKids cfg fails hIO hKE hDD rest mode pins links mask
+        (st.push n (run cfg fails mode i (kidMask links mask st.pre.length n.own true) n)
+          (!(run cfg fails mode i (kidMask links mask st.pre.length n.own true) n).own.failed)
+          (run cfg fails mode i (kidMask links mask st.pre.length n.own true) n).own.failed)
+      rw [h1, h2, KS.push_bumps_same _ _ _ _ _ (run_gen_of_not_byValue cfg fails mode i _ n (Or.inr hIO))]
       simp [shapeOfKids_append, shapeOfKids, shapeOf_run cfg fails hIO hKE hDD n mode i]
   termination_by kids => sizeOf kids
 end
@@ -281,13 +285,13 @@ end
 /-! ### nothing is left running -/
 
 mutual
-theorem idle_setIns : ∀ (n : Node) (i : List Val), idle (setIns i n) = idle n
-  | .fn o fid, i => rfl
-  | .comp o k l ks, i => by simp only [setIns, idle, idleKids_pushKids ks i l 0]
-theorem idleKids_pushKids : ∀ (ks : List Node) (pins : List Val) (l : List (Option Ref)) (p : Nat),
-    idleKids (pushKids pins l p ks) = idleKids ks
-  | [], _, _, _ => rfl
-  | n :: ns, pins, l, p => by
+theorem idle_setIns : ∀ (n : Node) (i : List Val) (m : List Bool), idle (setIns i m n) = idle n
+  | .fn o fid, i, m => rfl
+  | .comp o k l ks, i, m => by simp only [setIns, idle, idleKids_pushKids ks i l m 0]
+theorem idleKids_pushKids : ∀ (ks : List Node) (pins : List Val) (l : List (Option Ref)) (m : List Bool)
+    (p : Nat), idleKids (pushKids pins l m p ks) = idleKids ks
+  | [], _, _, _, _ => rfl
+  | n :: ns, pins, l, m, p => by
     simp only [pushKids, idleKids, idle_setIns n, idleKids_pushKids ns]
 end
 attribute [simp] idle_setIns idleKids_pushKids
@@ -322,23 +326,24 @@ end
 
 mutual
 theorem idle_run (cfg : Cfg) (fails : Nat → Bool) :
-    ∀ (n : Node) (mode : Mode) (ins : List Val), idle n = true → idle (run cfg fails mode ins n) = true
-  | .fn o fid, mode, ins, _ => by
+    ∀ (n : Node) (mode : Mode) (ins : List Val) (mask : List Bool),
+      idle n = true → idle (run cfg fails mode ins mask n) = true
+  | .fn o fid, mode, ins, mask, _ => by
     simp only [run, idle, Own.leafRun]
     split <;> rfl
-  | .comp o k links kids, mode, ins, h => by
+  | .comp o k links kids, mode, ins, mask, h => by
     simp only [idle, Bool.and_eq_true] at h
-    have hk := fun m => idleKids_runKids cfg fails kids m ins links KS.init (by simp [KS.init, idleKids]) h.2
+    have hk := fun m => idleKids_runKids cfg fails kids m ins links mask KS.init (by simp [KS.init, idleKids]) h.2
     simp only [run]
     by_cases hb : (place mode o.exe).byValue = true
     · simp only [hb, if_true, mergeOrFail]
       split
       · simp [idle, h.2]
       · have hkk : idleKids (if cfg.keepKidExe = true then
-              rewireAll (runKids cfg fails (.honour true) ins links KS.init kids).bumps
-                (runKids cfg fails (.honour true) ins links KS.init kids).pre
-            else stripDeep.stripKids (rewireAll (runKids cfg fails (.honour true) ins links KS.init kids).bumps
-                (runKids cfg fails (.honour true) ins links KS.init kids).pre)) = true := by
+              rewireAll (runKids cfg fails (.honour true) ins links mask KS.init kids).bumps
+                (runKids cfg fails (.honour true) ins links mask KS.init kids).pre
+            else stripDeep.stripKids (rewireAll (runKids cfg fails (.honour true) ins links mask KS.init kids).bumps
+                (runKids cfg fails (.honour true) ins links mask KS.init kids).pre)) = true := by
           split <;> simp [idleKids_rewireAll, idleKids_stripKids, hk]
         simp only [mergeBack]
         split <;> simp [idle, hkk]
@@ -346,21 +351,21 @@ theorem idle_run (cfg : Cfg) (fails : Nat → Bool) :
   termination_by n => sizeOf n
 
 theorem idleKids_runKids (cfg : Cfg) (fails : Nat → Bool) :
-    ∀ (kids : List Node) (mode : Mode) (pins : List Val) (links : List (Option Ref)) (st : KS),
+    ∀ (kids : List Node) (mode : Mode) (pins : List Val) (links : List (Option Ref)) (mask : List Bool) (st : KS),
       idleKids st.pre = true → idleKids kids = true →
-      idleKids (runKids cfg fails mode pins links st kids).pre = true
-  | [], _, _, _, st, h, _ => by simpa [runKids] using h
-  | n :: rest, mode, pins, links, st, h, hk => by
+      idleKids (runKids cfg fails mode pins links mask st kids).pre = true
+  | [], _, _, _, _, st, h, _ => by simpa [runKids] using h
+  | n :: rest, mode, pins, links, mask, st, h, hk => by
     simp only [idleKids, Bool.and_eq_true] at hk
     rw [runKids]
     split
-    · exact idleKids_runKids cfg fails rest mode pins links _
+    · exact idleKids_runKids cfg fails rest mode pins links mask _
         (by simp [idleKids_append, idleKids, h, hk.1]) hk.2
-    · exact idleKids_runKids cfg fails rest mode pins links _
+    · exact idleKids_runKids cfg fails rest mode pins links mask _
         (by simp [idleKids_append, idleKids, h, hk.1]) hk.2
     · rename_i i hp
-      exact idleKids_runKids cfg fails rest mode pins links _
-        (by simp [idleKids_append, idleKids, h, idle_run cfg fails n mode i hk.1]) hk.2
+      exact idleKids_runKids cfg fails rest mode pins links mask _
+        (by simp [idleKids_append, idleKids, h, idle_run cfg fails n mode i _ hk.1]) hk.2
   termination_by kids => sizeOf kids
 end
 
@@ -430,9 +435,10 @@ theorem complete_node_congr (cfg : Cfg) (fails : Nat → Bool) (s t : Sess) (hn 
     · exact ⟨hn ▸ rfl, rfl⟩
 
 /-- `running` is not read by a composite's run -/
-theorem run_comp_running (cfg : Cfg) (fails : Nat → Bool) (mode : Mode) (ins : List Val) (o : Own) (k : CK)
-    (l : List (Option Ref)) (ks : List Node) (b : Bool) :
-    run cfg fails mode ins (.comp { o with running := b } k l ks) = run cfg fails mode ins (.comp o k l ks) := by
+theorem run_comp_running (cfg : Cfg) (fails : Nat → Bool) (mode : Mode) (ins : List Val) (mask : List Bool)
+    (o : Own) (k : CK) (l : List (Option Ref)) (ks : List Node) (b : Bool) :
+    run cfg fails mode ins mask (.comp { o with running := b } k l ks) =
+      run cfg fails mode ins mask (.comp o k l ks) := by
   simp only [run]
   split
   · simp only [mergeOrFail, mergeBack]
@@ -467,7 +473,7 @@ theorem finish_submitted_comp (cfg : Cfg) (fails : Nat → Bool) (snap : Bool) (
     finish cfg fails
       (if o.exe.byValue then .copy (if snap then some (.comp { o with running := true } k l ks) else none)
        else .shared) (.comp { o with running := true } k l ks)
-    = some (run cfg fails (.honour false) o.ins (.comp o k l ks)) := by
+    = some (run cfg fails (.honour false) o.ins [] (.comp o k l ks)) := by
   by_cases hb : o.exe.byValue = true
   · cases snap <;>
       simp only [hb, if_true, finish, run, place, mergeOrFail, mergeBack, Bool.false_eq_true, if_false]
